@@ -38,7 +38,7 @@ CHECKS = {
         "No clause is assumed; Vec::retain / binary_search_by_key / hash-map std contracts are trusted wrappers, cross-checked by BOUNDED Kani harnesses where possible.",
    note="Trusted: Verus+Z3, vstd specs, opaque stand-ins for JsError/JsString, finite-map model of FxHashMap, std contracts of Vec::retain (R10) and Option::is_none_or. "
         "NOT carried by proof: that compile_* callers respect the allocator protocol (free only owned registers, no use after free); their size behaviour is covered only by the "
-        "side battery (about 580 programs over 19 construct families, sizes 0..600 and 4096..70000, deep nesting in a child process), which is testing, not proof (DESIGN §4.1). "
+        "side battery (about 670 programs over 30 construct families, sizes 0..600 and 4096..70000, deep nesting in a child process), which is testing, not proof (DESIGN §4.1). "
         "Two known findings are recorded: the constant-pool limit is cumulative per chunk; nesting 1000+ levels deep aborts the process with a stack overflow.",
    technique="contract-based deductive verification (Verus requires/ensures + representation invariant on in-place annotated real code; Kani bounded harness for restore)",
    ref="§4.1"),
